@@ -1,5 +1,5 @@
 prop("C07", pkg="c07", vlimit_gb=16, fuzz=[("FuzzProtoDecode", 90)],
-     rule="rapid draws a target type and 5 small values per type from the shared generator pgen (same type space as C03, including top-level targets and fields behind 1..3 pointers to Message / custom implementers and corpus structs; strings <= 40 bytes, repeated fields <= 14 elements, "
+     rule="rapid draws a target type and 5 small values per type from the shared generator pgen (same type space as C03 - including target structs larger than 64 KiB whose fields lie beyond offset 65535 -, including top-level targets and fields behind 1..3 pointers to Message / custom implementers and corpus structs; strings <= 40 bytes, repeated fields <= 14 elements, "
           "nesting <= 2) plus a 64-bit seed; from b = Marshal(v) the check enumerates: b itself; EVERY prefix b[:i]; for up to 24 fields (found at every nesting level by walking b "
           "with protowire along the type descriptor): the length prefix replaced by L-1, L+1, 2L+2, 2^24+L, 2^31, 2^63 (and L+1 with the enclosing lengths fixed up), tag / length "
           "/ value varints re-encoded in 10 and 11 bytes, the wire type set to each of the 7 other values, the field number set to 0 and 2^29; 8 single-bit flips; 4 random byte "
